@@ -198,8 +198,28 @@ func encryptMain(args []string) {
 		return []byte(pre + s)
 	}
 	mCounter := 0
+	// the slices the caller handed to the filter (at construction, through Rotate) stay the caller's:
+	// whatever the filter does later, it does not write into them
+	type lent struct{ b, orig []byte }
+	var lentOut []lent
+	lend := func(b []byte) []byte {
+		if b != nil {
+			lentOut = append(lentOut, lent{b, append([]byte(nil), b...)})
+		}
+		return b
+	}
+	checkLent := func(when string) {
+		for _, l := range lentOut {
+			if string(l.b) != string(l.orig) {
+				oracle("C16 %s rewrote a salt / info slice the caller had handed to the filter earlier (%q became %q): other holders of that slice now HMAC under different key material", when, l.orig, l.b)
+				lentOut = nil
+				return
+			}
+		}
+	}
 	newFilter := func(w, s, i string) {
-		h.f = &encrypt.Filter{HmacSalt: optB(s, "salt"), HmacInfo: optB(i, "info")}
+		lentOut = nil
+		h.f = &encrypt.Filter{HmacSalt: lend(optB(s, "salt")), HmacInfo: lend(optB(i, "info"))}
 		if w != "N" {
 			h.f.Wrapper = h.wrapper(atoi(w))
 		}
@@ -227,12 +247,13 @@ func encryptMain(args []string) {
 					opts = append(opts, encrypt.WithWrapper(h.wrapper(atoi(rw))))
 				}
 				if rs != "N" {
-					opts = append(opts, encrypt.WithSalt([]byte("salt"+rs)))
+					opts = append(opts, encrypt.WithSalt(lend([]byte("salt"+rs))))
 				}
 				if ri != "N" {
-					opts = append(opts, encrypt.WithInfo([]byte("info"+ri)))
+					opts = append(opts, encrypt.WithInfo(lend([]byte("info"+ri))))
 				}
 				h.f.Rotate(opts...)
+				checkLent("Rotate")
 				upd(&curW, rw)
 				upd(&curS, rs)
 				upd(&curI, ri)
@@ -248,6 +269,7 @@ func encryptMain(args []string) {
 				if got != nil || err != nil {
 					oracle("C09 a key-rotation payload was forwarded or failed: %v %v", got, err)
 				}
+				checkLent("a rotation payload")
 				upd(&curW, rw)
 				upd(&curS, rs)
 				upd(&curI, ri)
